@@ -97,12 +97,19 @@ def check_case(acc: Acc, case):
     labelled = []  # per transmission: list of (ticks, bytes, spec)
     for deliveries in case["tx"]:
         pieces = []
+        closes = []
         for ticks, spec in deliveries:
+            if spec[0] == "eof":          # the peer closes the connection (TCP) / an ICMP error arrives (UDP) at that tick
+                closes.append(ticks)
+                continue
             b = resolve(spec, F, F2)
             if b:
                 pieces.append((ticks, b, spec))
         labelled.append(pieces)
-        script.append(["multi", [[t, b] for t, b, _ in pieces]] if pieces else ["drop"])
+        act = ["multi", [[t, b] for t, b, _ in pieces]] if pieces else ["drop"]
+        if closes:
+            act = ["combo", [act] + [(["eof", t] if transport == "tcp" else ["recverr", t, "ECONNREFUSED"]) for t in closes]]
+        script.append(act)
         if len(pieces) >= 2:
             split = True
     if split:
@@ -300,6 +307,15 @@ def negative_job(job):
                              "tx": [[[3, ["head", s]], [30, later]], []]})
                 _apply(acc, {"transport": transport, "keep": keep, "T": T, "R": R, "count": count,
                              "tx": [[[3, ["head", s]]], [[d, ["head", s]]], [[d, later]]]})
+    # transmission 1 gets a first fragment and then the connection is closed by the peer (before any timeout); transmission 2
+    # receives the remainder / another remainder / its own answer split at the same point: nothing may be glued onto the old fragment
+    for s in splits:
+        if s < hdr:
+            continue
+        for later in ([[1, ["tail", s]]], [[1, ["other_tail", s]]], [[1, ["other_head", s]], [3, ["other_tail", s]]], [[2, ["full"]]]):
+            for d_close in (3, 9):
+                _apply(acc, {"transport": transport, "keep": keep, "T": T, "R": R, "count": count,
+                             "tx": [[[2, ["head", s]], [d_close, ["eof"]]], later]})
     # a stale first fragment of transmission 1 (lost tail) shows up during transmission 2, which is answered in two pieces
     if transport != "tcp":
         for s in splits:
